@@ -219,7 +219,8 @@ def tlc(module, cfg=None, env=None, workers=None, timeout=1100, simulate=None, d
     cfgp = cfg if cfg else mpath[:-4] + ".cfg"
     if not os.path.isabs(cfgp):
         cfgp = os.path.join(mdir, cfgp)
-    meta = os.path.join(BUILD, "tlc", "m%d_%d" % (os.getpid(), int(time.time() * 1000) % 10**9))
+    import uuid
+    meta = os.path.join(BUILD, "tlc", "m%d_%s" % (os.getpid(), uuid.uuid4().hex[:12]))
     os.makedirs(meta, exist_ok=True)
     libpath = os.pathsep.join(TLA_DIRS)
     jopts = ["-Xss64m", "-Xmx" + xmx, "-XX:+UseParallelGC", "-DTLA-Library=" + libpath]
